@@ -8,4 +8,4 @@ open Driver
 def main (args : List String) : IO UInt32 :=
   run [Fam.control, Fam.controlOrig, Fam.controlBits, Fam.controlVer, Fam.controlRead, Fam.controlTotal, Fam.controlAny, Fam.controlPg10,
        Fam.sequence, Fam.sequenceOrig, Fam.isseq, Fam.isseqOrig, Fam.seqAny, Fam.seqAnyOrig, Fam.seqTotal,
-       Fam.relmap, Fam.relmapTotal, Fam.seqfind, Fam.seqscan, Fam.relmapRead] args
+       Fam.relmap, Fam.relmapTotal, Fam.seqfind, Fam.seqscan, Fam.seqrepeat, Fam.relmapRead] args
